@@ -72,6 +72,9 @@ def verdict (v : VSt) (line : String) : VSt × String :=
   else if rt.any (fun p => !answered.contains p) then (v1, "FAIL a member has never answered a request from this node")
   else if lastFailed.any (fun p => rt.contains p) then
     (v1, "FAIL a member that failed a dial or request in an uncancelled lookup is still in the table")
+  else if (ws.head? == some "ident" || ws.head? == some "proto") && (kv "proto" == "0" || kv "filt" == "0")
+      && rt.contains (kv "p").toNat! then
+    (v1, "FAIL a member reported as no longer supporting the protocol (or no longer passing the filter) is still in the table")
   else (v1, "ok")
 
 /-! ### refresh requests (sibling harness in package rtrefresh) -/
